@@ -240,6 +240,17 @@ func solveAll1(jobs []*job, timeoutS int, cross bool, workers int) {
 				}
 			}
 		}
+		if j.ob.SMTHead != "" {
+			hp := strings.TrimSuffix(j.path, ".smt2") + ".head.smt2"
+			if os.WriteFile(hp, []byte(j.ob.SMTHead), 0o644) == nil {
+				r := runSolver(context.Background(), solvers[0], hp, min(3, timeoutS))
+				if r.Status == "unsat" {
+					r.Solver += "+head-lemmas"
+					j.res = r
+					return
+				}
+			}
+		}
 		if j.ob.SMTAlt != "" {
 			ap := strings.TrimSuffix(j.path, ".smt2") + ".alt.smt2"
 			alt := j.ob.SMTAlt
